@@ -291,6 +291,7 @@ def run(ctx):
         "scipy csr_matrix((ones,(rows,cols))).sort_indices() yields the sorted distinct (row,col) pattern; np.searchsorted/np.bincount semantics (compared on every case)",
         "python object identity of _GroupElem as cache-key component: a group object is never mutated in place (connect is private and copied on read)",
         "float arithmetic is exact on the generated integer data (|values| <= 9, < 100 summands)",
+        "index arithmetic: the theorems are over unbounded Z; C03_int64_keys_exact shows the code's wrapping int64 key arithmetic equals it when Ndof^2 < 2^63 (the dtype actually used by numpy is observed only through the large-index correspondence cases)",
     ]
     ok_static, log = ctx.ensure_static()
     if not ok_static:
@@ -298,9 +299,9 @@ def run(ctx):
         ctx.violation("static-lib-build", "coq/lib or coq/model does not build", {"log": log[-3000:]}, found_input=False)
         return
     files = ctx.copy_props("C03/C03_theorems.v")
-    extra = os.path.join(common.COQ, "props", "C03", "C03_renumber.v")
-    if os.path.exists(extra):
-        files += ctx.copy_props("C03/C03_renumber.v")
+    for extra in ("C03_renumber.v", "C03_bounds.v"):
+        if os.path.exists(os.path.join(common.COQ, "props", "C03", extra)):
+            files += ctx.copy_props("C03/" + extra)
     r = ctx.coq(files, timeout=600)
     ctx.sample({"theorem": "C03_assembly_after_any_history: forall env0 Nn0 ops pt dof_n t, ops_ok s0 ops -> 0 < dof_n -> table_ok (run s0 ops) t -> each of K,C,M,F returned by Assembly satisfies forall r c in range, csr_get X r c = dense scatter-add of the present groups' entries",
                 "proof": "induction over op lists with the cache invariant; refinement via sorted-unique keys / searchsorted / bincount lemmas"})
